@@ -153,6 +153,23 @@ def handle (op : String) (args : List String) (impl : String) : Option Verdict :
     let some n := n.toNat? | return bad
     -- per-input session ids = hex sighashes: identical for every relayer / history, one per input
     return ⟨s!"same:{n}", impl.startsWith "same:", s!"btcsession:inputs={n}:props={np}"⟩
+  | "evmoutage", [src, ranges] => some <| Id.run do
+    let some src := src.toNat? | return bad
+    let rs := (ranges.splitOn "/").zipIdx
+    let some parsed := rs.mapM (fun (r, i) => match r.splitOn ":" with
+      | [o, ds] => do
+        let ds ← ((items ds ",").zipIdx.mapM fun ((x : String), (j : Nat)) => parseDep j (String.ofList (x.toList.filter (· != 'b'))))
+        pure (o == "o", (Int.ofNat (10 * i)), (Int.ofNat (10 * i + 4)), ds)
+      | _ => none) | return bad
+    -- a range handled while the lookup is down loses its deposits (code as it is; see C05's known finding) — every
+    -- OTHER range must yield exactly its own deposits under its own ids, as a relayer that never saw the outage does
+    let m := "/".intercalate (parsed.map fun ((o : Bool), s, e, ds) => if o then "-" else showGroups src s e ds)
+    let outs := impl.splitOn "/"
+    let ok := outs.length == parsed.length && (parsed.zip outs).all fun (((o : Bool), s, e, ds), out) =>
+      o || (match parseGroups out with
+        | some gs => groupsOk src s e ds gs
+        | none => false)
+    return ⟨m, ok, s!"evmoutage:ranges={min parsed.length 4}:outage={parsed.any (·.1)}"⟩
   | "subids", [src, s, e, ds] => some (idsVerdict "" "subids" src s e ds impl)
   | "subretryids", [src, s, e, _h, ds] => some (idsVerdict "retry-" "subretryids" src s e ds impl)
   | "evmretry1ids", [src, s, e, ds] => some (idsVerdict "retry-" "evmretry1ids" src s e ds impl)
